@@ -104,3 +104,14 @@ for api in (1, 2):
     for hk in (0, 1, 2, 3):
         QM(('C04', 'C05', 'C07', 'C08', 'C14'), 'pentry.api%d.hooks%d' % (api, hk), 'harness/print_entry.c', defs=['-DAPI=%d' % api, '-DHOOKS=%d' % hk], unwind=10, unwindset=ML(16) + ['vf_memcpy.0:66'], stub=['print_value'],
            cost=10, functions=ENTFN, tiers=('quick', 'thorough') if hk <= 1 else ('thorough',))
+
+# ------------------------------------------------------------------ edit steps (C06, C07, C08)
+EDIT_OPS = {1: 'AddItemToArray', 2: 'AddItemToObject', 3: 'AddItemToObjectCS', 4: 'AddItemReferenceToArray', 5: 'AddItemReferenceToObject', 6: 'InsertItemInArray',
+            7: 'DetachItemViaPointer', 8: 'DetachItemFromArray', 9: 'DeleteItemFromArray', 10: 'DetachItemFromObject', 11: 'DetachItemFromObjectCaseSensitive',
+            12: 'DeleteItemFromObject', 13: 'DeleteItemFromObjectCaseSensitive', 14: 'ReplaceItemViaPointer', 15: 'ReplaceItemInArray', 16: 'ReplaceItemInObject',
+            17: 'ReplaceItemInObjectCaseSensitive', 18: 'queries', 19: 'setters', 20: 'AddKindToObject'}
+for op, name in EDIT_OPS.items():
+    for K in (2, 3, 4):
+        QM(('C06', 'C07', 'C08'), 'edit.%s.K%d' % (name, K), 'harness/edit.c', defs=['-DOP=%d' % op, '-DK=%d' % K], unwind=K + 3,
+           unwindset=ML(K + 4, 60) + ['cJSON_Delete:2', 'cJSON_Delete.0:3', 'vf_build_rec:3', 'vf_memcpy.0:66', 'strlen.0:6', 'strcmp.0:6', 'strcpy.0:6', 'memcmp.0:4', 'check_list.0:%d' % (K + 3)],
+           tiers=('quick', 'thorough') if K == 3 else ('thorough',), cost=K * 5, functions=['cJSON_' + name if op < 18 else name, 'add_item_to_array', 'add_item_to_object', 'create_reference', 'get_array_item', 'get_object_item', 'cJSON_Delete', 'cJSON_strdup'])
